@@ -6,7 +6,7 @@ import numpy as np
 from .. import core, gen
 
 ID = 'C07'
-FOUNDATIONS = ['harness.foundation.filteriter']   # the models use the closed form proved by F6 (filterIter_refines)
+FOUNDATIONS = ['harness.foundation.filteriter', 'harness.foundation.cscalar']   # the models use the closed form proved by F6 (filterIter_refines)
 LEAN_TARGETS = ['Mahotas.Proofs.FilterIter']
 LEVEL = 'proof'
 MODES = ['nearest', 'wrap', 'reflect', 'mirror', 'constant', 'ignore']
